@@ -2831,6 +2831,14 @@ impl RaftNode {
 
         let entry = LogEntry::codebook(term, index, CodebookChange::replace(snapshot));
         persistent.log.push(entry);
+
+        // Persist to WAL if enabled, as `propose` does: the leader counts its own
+        // copy of the entry towards the quorum
+        if let Err(e) = self.persist_log_entry(&persistent.log[persistent.log.len() - 1]) {
+            persistent.log.pop(); // Rollback on failure
+            return Err(e);
+        }
+
         drop(persistent);
 
         Ok(index)
